@@ -84,6 +84,11 @@ func genC09(t *rapid.T) Case {
 	}
 	ops := GenTxOps(t, TxGenOpts{MinOps: 5, MaxOps: 45, Weights: map[string]int{
 		"begin": 5, "set": 10, "del": 3, "get": 1, "commit": 4, "rollback": 2, "gc": gcw}})
+	for n := rapid.IntRange(0, 2).Draw(t, "collectorScenarios"); n > 0; n-- {
+		sc := GenCollectorScenario(t)
+		at := rapid.IntRange(0, len(ops)).Draw(t, "gcAt")
+		ops = append(ops[:at:at], append(sc, ops[at:]...)...)
+	}
 	if dense { // the collector after every step (and before the first)
 		c.Ops = append(c.Ops, Op{K: "gc"})
 		for _, op := range ops {
